@@ -310,12 +310,12 @@ class Interpreter:
 
         if len(computed_steps) > 0:
 
-            # Consume event if it triggered a transition
-            if computed_steps[0].event is not None:
-                event = self._select_event(consume=True)
+            # Consume event if it triggered a transition. The very event the steps were computed
+            # for is removed: another thread may have queued an event before it meanwhile.
+            event = computed_steps[0].event
+            if event is not None:
+                self._consume_event(event)
                 self._raise_event(MetaEvent('event consumed', event=event))
-            else:
-                event = None
 
             # Execute the steps
             if hasattr(self._evaluator, 'on_step_starts'):
@@ -407,6 +407,21 @@ class Interpreter:
                             queue.pop(0)
                         return event
         return None
+
+    def _consume_event(self, event: Event) -> None:
+        """
+        Remove given event (as returned by *_select_event*) from the event queues.
+
+        :param event: the event to remove.
+        """
+        with self._queue_lock:
+            for queue in cast(
+                    Tuple[List[Tuple[float, Event]]],
+                    (self._internal_queue, self._external_queue)):
+                for position, (_, queued_event) in enumerate(queue):
+                    if queued_event is event:
+                        del queue[position]
+                        return
 
     def _select_transitions(self, event: Optional[Event], states: Iterable[str], *,
                             eventless_first=True, inner_first=True) -> List[Transition]:
